@@ -48,6 +48,7 @@ var (
 
 func runC19(p *core.Prog, r *core.Result) {
 	r.Decided = []string{
+		"R19.4 every format string of the writer is a constant: configuration data is only ever an operand, never the format",
 		"R19.1 the hand-written writer emits every toml-tagged field of Config and RequirementConfig, under the key given by the field's tag",
 		"R19.2 requirements are written in sorted key order (no Go-map iteration order reaches the output)",
 		"R19.3 every configuration value is written through the TOML encoder; a requirement name is written bare only when it is non-empty and consists of bare-key characters (A-Z a-z 0-9 _ -)",
@@ -69,7 +70,26 @@ func runC19(p *core.Prog, r *core.Result) {
 		args   []ssa.Value
 	}
 	var emits []emit
-	for _, f := range core.WithAnons(w) {
+	// the writer, its closures, and the in-package helpers they call (which may format a line and return it)
+	scope := core.WithAnons(w)
+	inScope := map[*ssa.Function]bool{}
+	for _, f := range scope {
+		inScope[f] = true
+	}
+	for depth := 0; depth < 2; depth++ {
+		for _, f := range append([]*ssa.Function{}, scope...) {
+			for _, c := range core.Calls(f) {
+				cal := core.Callee(c)
+				if cal == nil || inScope[cal] || cal == enc || cal == plain || cal.Blocks == nil || cal.Pkg != w.Pkg {
+					continue
+				}
+				inScope[cal] = true
+				scope = append(scope, core.WithAnons(cal)...)
+			}
+		}
+	}
+	isForwarder := func(f *ssa.Function) bool { return f != w && f.Parent() != nil && core.Outer(f) == w }
+	for _, f := range scope {
 		for _, c := range core.Calls(f) {
 			args := c.Common().Args
 			if c.Common().IsInvoke() || len(args) == 0 {
@@ -87,8 +107,8 @@ func runC19(p *core.Prog, r *core.Result) {
 						va, _ = tupleElems(sl)
 					}
 				}
-				// only count emissions made from w itself (closures forward their parameters)
-				if f == w {
+				// closures of the writer forward their parameters: count the emissions of the writer and of helpers
+				if !isForwarder(f) {
 					emits = append(emits, emit{c, s, va})
 				}
 				break
@@ -166,6 +186,84 @@ func runC19(p *core.Prog, r *core.Result) {
 			r.OK("R19.1", construct, p.Pos(w.Pos()), "written under its tag key %q", f.Key)
 		}
 	}
+
+	// ---- R19.4 format strings are constants
+	nFmt := 0
+	var constFormat func(v ssa.Value, depth int) bool
+	constFormat = func(v ssa.Value, depth int) bool {
+		if _, ok := core.ConstString(v); ok {
+			return true
+		}
+		prm, ok := v.(*ssa.Parameter)
+		if !ok || depth > 3 {
+			return false
+		}
+		// a forwarded format parameter: every caller must pass a constant (or forward one itself)
+		fn := prm.Parent()
+		idx := -1
+		for i, q := range fn.Params {
+			if q == prm {
+				idx = i
+			}
+		}
+		callers := 0
+		okAll := true
+		for _, g := range scope {
+			for _, c := range core.Calls(g) {
+				direct := core.Callee(c) == fn
+				if !direct {
+					// closure called through the local it is bound to
+					if mc, isMC := c.Common().Value.(*ssa.MakeClosure); isMC && mc.Fn == ssa.Value(fn) {
+						direct = true
+					} else if ld, isLd := c.Common().Value.(*ssa.UnOp); isLd {
+						if st := core.SingleStore(ld.X); st != nil {
+							if mc, isMC := st.(*ssa.MakeClosure); isMC && mc.Fn == ssa.Value(fn) {
+								direct = true
+							}
+						} else if fv, isFV := ld.X.(*ssa.FreeVar); isFV {
+							if b := core.Binding(fv); b != nil {
+								if st := core.SingleStore(b); st != nil {
+									if mc, isMC := st.(*ssa.MakeClosure); isMC && mc.Fn == ssa.Value(fn) {
+										direct = true
+									}
+								}
+							}
+						}
+					}
+				}
+				if !direct || idx >= len(c.Common().Args) {
+					continue
+				}
+				callers++
+				if !constFormat(c.Common().Args[idx], depth+1) {
+					okAll = false
+				}
+			}
+		}
+		return callers > 0 && okAll
+	}
+	for _, f := range scope {
+		for _, c := range core.Calls(f) {
+			cal := core.Callee(c)
+			if cal == nil || cal.Pkg == nil || cal.Pkg.Pkg.Path() != "fmt" {
+				continue
+			}
+			fi := -1
+			switch cal.Name() {
+			case "Fprintf":
+				fi = 1
+			case "Sprintf", "Printf", "Errorf":
+				fi = 0
+			}
+			if fi < 0 || cal.Name() == "Errorf" {
+				continue
+			}
+			nFmt++
+			construct := fmt.Sprintf("%s#format-%d", fname(f), nFmt)
+			r.Check(constFormat(c.Common().Args[fi], 0), "R19.4", construct, p.InstrPos(c.(ssa.Instruction)), "the format string is a constant (directly or through the forwarding closures' call sites)", "configuration data reaches fmt."+cal.Name()+" as the format string: a '%' in a requirement name, path or version is reinterpreted as a verb (my%20repo is written as my%!r(MISSING)epo), so the rewritten file loads as a different configuration")
+		}
+	}
+	r.Floor("R19.4", nFmt, 1, "formatting calls of the configuration writer")
 
 	// ---- R19.2
 	mapRange := false
